@@ -16,7 +16,8 @@ import extract_options  # noqa: E402
 import extract_vocab  # noqa: E402
 
 CLASS_WHAT = {
-    'queryFieldDeadEnd': 'lazy validation: when the path of a condition dead-ends in a scalar (no '
+    'queryFieldDeadEnd': 'lazy validation: when the path of a condition reaches no value (a field '
+                         'name over an array of scalars, an index past the end of an array: no '
                          'candidate value) the operators of the condition are never looked at, so '
                          'ANY unknown $operator is accepted silently (a server rejects it)',
     'updateNoMatch': 'lazy validation: when no document matches (and no upsert) the update '
